@@ -8,7 +8,7 @@ rows = [l for l in out.splitlines() if l.startswith("| C")]
 p = os.path.join(HERE, "DESIGN.md")
 s = open(p).read()
 head = "| id | change | caught by target check | all alarms observed (property:classes) |\n|----|--------|------------------------|-----------------------------------------|\n"
-for tag, suf in (("D", "d-"), ("E", "e-"), ("F", "f-"), ("G", "g-")):
+for tag, suf in (("D", "d-"), ("E", "e-"), ("F", "f-"), ("G", "g-"), ("H", "h-")):
     body = "\n".join(r for r in rows if re.match(r"\| C\d\d%s\d " % suf, r))
     block = "<!--TABLE-%s-->\n%s%s\n<!--END-TABLE-%s-->" % (tag, head, body, tag)
     if "<!--END-TABLE-%s-->" % tag in s:
